@@ -109,11 +109,16 @@ def run(ctx):
     extra = [(bl, "baselines.ndjson")]
 
     # ---- direction A: exhaustive single deviations
-    gen = ctx.tlc("Migrate", "Migrate.gen.cfg", workers=6, timeout=1500, coverage=True, extra_files=extra)
-    acts = action_counts(gen["out"])
-    for a in ("PickVer", "PickKey", "PickBase", "PickSingle"):
-        if acts.get(a, 0) == 0:
-            raise vlib.Inconclusive("vacuous: action %s never taken (%s)" % (a, acts))
+    # -coverage costs about a third more TLC time: the thorough tier runs
+    # with it; the quick tier infers the same from the emitted vectors (a
+    # "base" line is printed by PickBase only, a "vec" line by PickSingle only,
+    # and both are reachable only through PickVer and PickKey).
+    gen = ctx.tlc("Migrate", "Migrate.gen.cfg", workers=6, timeout=1500, coverage=not ctx.quick, extra_files=extra)
+    if not ctx.quick:
+        acts = action_counts(gen["out"])
+        for a in ("PickVer", "PickKey", "PickBase", "PickSingle"):
+            if acts.get(a, 0) == 0:
+                raise vlib.Inconclusive("vacuous: action %s never taken (%s)" % (a, acts))
     vectors = gen["vectors"]
     bases = {v["v"]: v for v in vectors if v["kind"] == "base"}
     singles = [v for v in vectors if v["kind"] == "vec"]
@@ -198,8 +203,13 @@ def run(ctx):
                 "run; non-trivial = the spec admits an error or several result shapes, or the stamp deviates "
                 "(a null/mistyped/absent key that a later step reads)",
         "loader_accepted": loader,
-        "exhaustive": True,
-        "split_points": "all k for documents starting at version >= 5 (thorough), seeded subset otherwise",
+        # Every enumerated document is replayed in both tiers; the split
+        # points are all replayed only for documents starting at schema >= 5
+        # in the thorough tier (below 5 every path costs a bcrypt hash).
+        "exhaustive": False,
+        "exhaustive_documents": True,
+        "split_points": "thorough: all k for documents starting at schema >= 5, 3 seeded k below; "
+                        "quick: 3 seeded k (one k for a quarter of the documents below schema 5)",
         "samples": samples,
     }
     cov.update(stats)
